@@ -19,3 +19,4 @@ import Vet.Props.WFCorollaries
 #print axioms Vet.C10_certify_ask_keeps_passing_wf
 #print axioms Vet.Store.ask_wf
 #print axioms Vet.Store.wf_spec
+#print axioms Vet.C10_certify_end_to_end_wf
